@@ -30,7 +30,7 @@ ASSUMPTIONS = [
 
 CTXS = prog.CLS_NAMES
 POSITIONS = ["from", "join", "in", "not_in", "cmp", "select", "cte", "insert_select", "create_as", "setop_left", "setop_right", "having_cmp", "setop_in_from",
-             "in_joined", "select_in", "select_cmp", "on_in", "returning_cmp", "returning_item", "returning_cmp_delete"]
+             "in_joined", "select_in", "select_cmp", "on_in", "returning_cmp", "returning_item", "returning_cmp_delete", "cte_update", "cte_delete", "cte_insert"]
 # (function-argument and arithmetic-operand embeddings exist in outer_program for experiments; the property lists neither, so they are not checked)
 OUT = {"OT": ["tbl", "outer_t", None, None], "OU": ["tbl", "outer_u", None, None]}
 
@@ -93,6 +93,12 @@ def outer_program(cls, pos, inner, alias):
         steps = [["from_", [["src", "OT"]]], ["select", [OA, q]]]
     elif pos == "cte":
         steps = [["with_", [["q", inner], ["py", "cte9"]]], ["from_", [["cte", "cte9"]]], ["select", [["py", "*"]]]]
+    elif pos == "cte_update":
+        steps = [["with_", [["q", inner], ["py", "cte9"]]], ["update", [["src", "OT"]]], ["set", [OA, ["raw", 1]]]]
+    elif pos == "cte_delete":
+        steps = [["with_", [["q", inner], ["py", "cte9"]]], ["from_", [["src", "OT"]]], ["delete", []], ["where", [["eq", OA, ["raw", 1]]]]]
+    elif pos == "cte_insert":
+        steps = [["with_", [["q", inner], ["py", "cte9"]]], ["into", [["src", "OT"]]], ["insert", [["raw", 1]]]]
     elif pos == "insert_select":
         return None
     elif pos == "create_as":
@@ -217,6 +223,8 @@ def check(case, pos, par):
     to = lex.lex(s_out, cls)
     ko, ka = keys(to), keys(ta)
     hits = find_sub(ko, ka)
+    if not hits and pos.startswith("cte_") and not (to and to[0].kind == "word" and to[0].value == "WITH"):
+        return [(mksig(pos, "with_clause_dropped"), "the statement has lost its WITH clause altogether: %r" % s_out)]
     if not hits:
         return [(mksig(pos, "differs", first_diff_clause(ta, to)), "embedded at %s the inner query is not rendered as it is stand-alone: outer %r ; stand-alone %r" % (pos, s_out, s_alone))]
     ok = False
@@ -291,14 +299,47 @@ def valid_case(case):
         return False
 
 
+def fixed_inners():
+    """inner queries the random generator rarely draws: boolean expressions in ORDER BY / GROUP BY of queries and set operations (bracketing
+    flags of the embedding position must not reach them), CTE inside, pagination on a set operation"""
+    T, U = ["col", "T", "a"], ["col", "U", "a"]
+    disj = ["or", ["eq", T, ["raw", 1]], ["eq", T, ["raw", 2]]]
+    sel_t = [["from_", [["src", "T"]]], ["select", [T]]]
+    sel_u = {"cls": "inherit", "sources": {}, "steps": [["from_", [["src", "U"]]], ["select", [U]]]}
+    out = {
+        "setop_orderby_disjunction": sel_t + [["union_all", [["q", sel_u]]], ["orderby", [disj]]],
+        "setop_orderby_conjunction_limit": sel_t + [["union", [["q", sel_u]]], ["orderby", [["and", ["gt", T, ["raw", 1]], ["lt", T, ["raw", 9]]]]], ["limit", [["raw", 3]]]],
+        "select_orderby_disjunction": sel_t + [["where", [["gt", T, ["raw", 0]]]], ["orderby", [disj]]],
+        "select_groupby_disjunction": [["from_", [["src", "T"]]], ["select", [["fn", "Count", [["py", "*"]]]]], ["groupby", [disj]], ["having", [["or", ["gt", ["fn", "Count", [["py", "*"]]], ["raw", 1]], ["eq", ["fn", "Max", [T]], ["raw", 5]]]]]],
+        "select_item_disjunction": [["from_", [["src", "T"]]], ["select", [disj]]],
+    }
+    for name, steps in out.items():
+        for cls in CTXS:
+            for alias in (None, "ia"):
+                yield {"cls": cls, "inner": {"cls": "inherit", "sources": {}, "steps": steps}, "alias": alias, "ncols": 1, "fixed": name}
+
+
 def shards(tier, sd):
     n = 8 if tier == "quick" else 32
-    return [(tier, sd * 1000 + k) for k in range(n)]
+    return [(tier, sd * 1000 + k) for k in range(n)] + [("fixed", 0)]
 
 
 def run_shard(shard):
     tier, sd = shard
     col = Collector()
+    if tier == "fixed":
+        for case in fixed_inners():
+            for pos in POSITIONS:
+                for par in (False, True, "str", "noarg"):
+                    c = dict(case, pos=pos, par=par)
+                    res = check(case, pos, par)
+                    if res and res[0][0].startswith("__"):
+                        col.count("skip:%s:%s" % (res[0][0].strip("_"), pos))
+                        continue
+                    col.case(c, True, classes=("pos:" + pos, "cls:" + case["cls"], "fixed:" + case["fixed"]))
+                    for sig, detail in res:
+                        col.violation(sig, c, detail)
+        return col
     nex = 150 if tier == "quick" else 2500
 
     @seed(sd)
